@@ -16,7 +16,8 @@ Per case (one worker each):
      mismatched id dtypes) with structure validation on: the target must be rejected afterwards,
      and after a *validation* failure nodes/, edges/ and the geff attribute must be gone and the
      foreign part unchanged.
-Correspondence with the Lean model (GeffModel/KV.lean through Drivers/C05.lean): the recorded real
+Correspondence with the Lean model (GeffModel/KV.lean + GeffModel/KVTorn.lean — the verdict of the final
+validation is taken on the committed store — through Drivers/C05.lean): the recorded real
 mutation sequence equals the model's `ops` (kind and key of every mutation), the outcome classes
 agree, the final stores agree document by document, and the store surviving the fault at k equals
 the model's store after the mutations that really executed (a prefix plus, for zarr's concurrent
@@ -433,7 +434,7 @@ def match_executed(ops, k, after):
 
 # ----------------------------------------------------------------- the check
 def run(ck: common.Check):
-    ck.prove(["GeffProps.C05", "GeffProps.C05Links"])
+    ck.prove(["GeffProps.C05", "GeffProps.C05Links", "GeffProps.C05Hist"])
     ck.rule = ("case = (zarr format, store kind, foreign members?, pre-existing geff?, entry point, graph, overwrite, "
                "invalid-input kind); streams: corpus, bounded matrix on 3-node graphs (format x kind x pre-state x "
                "{write_arrays, geff.write}), seeded random graphs (0-6 nodes, 0-3 node / 0-2 edge properties of "
@@ -586,7 +587,8 @@ def run(ck: common.Check):
     ck.extra["explanation"] = (
         "proof about the op-sequence model (all graphs, all crash points, all sub-batch failure states); the model is tied to "
         "the implementation by exact comparison of recorded store-mutation traces and by fault injection at every mutation; "
-        "array contents and the validation verdict are parameters of the model, atomicity of one store mutation is assumed")
+        "array contents and the validation verdict on the graph's content are parameters of the model (the verdict on left-overs of "
+        "interrupted writes is computed from the committed store), atomicity of one store mutation is assumed")
     ck.assumptions += [
         "a single store mutation (set / set_if_not_exists / delete) is atomic; LocalStore.delete_dir and the "
         "shutil.rmtree of a str/Path root are single atomic operations (they are not sequences of store mutations)",
@@ -594,7 +596,10 @@ def run(ck: common.Check):
         "`recognised` is a necessary condition for validate_structure + read_to_memory to accept (checked at every fault point)",
         "on MemoryStore-like stores delete_dir removes keys in store (insertion) order; the first key of nodes/ of a store "
         "written by geff is the nodes/ids metadata document (proved for the model: C05_written_is_delete_safe)",
-        "the verdict of validate_structure is an input of the model (G.valid); array contents are opaque documents",
+        "the verdict of validate_structure on the content of the graph is an input of the model (G.valid); what it makes of "
+        "left-overs of an interrupted write is modelled (GeffModel/KVTorn.lean: members of nodes/props, edges/props the call "
+        "did not write => rejected); array contents are opaque documents, so a call whose metadata names a property it does "
+        "not supply and that finds a left-over array of that name is outside the model",
         "writes across zarr formats (old geff v2, new v3 or vice versa) are outside the theorems (PreOK) — see C06 known finding",
     ]
 
@@ -607,6 +612,8 @@ def K_key(pk):
 
 
 def replay(rp):
+    if "case" not in rp and rp.get("stream") == "history":
+        rp = {"case": rp}          # a corpus file of the history stream is replayable as it is
     if "case" not in rp and rp.get("no_longer_checks"):
         # a `…-broken-…` file: correspondences that no longer checked (no failing input of the property)
         from harness.corr import _c05_hist as HI
